@@ -209,6 +209,29 @@ def records_for(inst, seed=0):
     return recs
 
 
+def big_index_records(big):
+    """index tables of very long frames (only the few unmasked pixels are listed; the masked list is not materialised)"""
+    import autoarray as aa
+
+    out = []
+    for h, w, u in big:
+        m = np.ones(h * w, dtype=bool)
+        m[u] = False
+        di = aa.Mask2D(mask=m.reshape(h, w), pixel_scales=(1.0, 1.0)).derive_indexes
+        try:
+            nfs = np.asarray(di.native_for_slim)
+            nfs = nfs.astype(np.int64).tolist() if nfs.ndim == 2 and nfs.shape[1] == 2 else [[exact.OFF, exact.OFF]]
+        except Exception:  # noqa: BLE001
+            nfs = [[exact.OFF, exact.OFF]]
+        try:
+            us = np.asarray(di.unmasked_slim)
+            us = us.astype(np.int64).tolist() if us.ndim == 1 else [exact.OFF]
+        except Exception:  # noqa: BLE001
+            us = [exact.OFF]
+        out.append({"p": "C01", "api": "indexes_big", "h": h, "w": w, "u": [int(x) for x in u], "nfs": nfs, "uslim": us})
+    return out
+
+
 def _records_many(args):
     insts, seed = args
     out = []
@@ -236,11 +259,14 @@ def run(ctx):
         if k % 3 == 0:
             m1[int(rng.integers(0, w1))] = False
         rnd.append((1, w1, [int(x) for x in np.flatnonzero(m1)]))
+    # two very long, almost fully masked frames: index arithmetic beyond 2^15 (and 2^16) pixels per side
+    big = [(2, 40000, [3, 32767, 32768, 39999, 40000 + 32769, 79999]), (70000, 1, [0, 32768, 65535, 65536, 69999])]
     allinst = insts + rnd
     groups = [(allinst[k : k + 50], ctx.seed) for k in range(0, len(allinst), 50)]
     recs = []
     for part in core.pmap(_records_many, groups):
         recs.extend(part)
+    recs.extend(big_index_records(big))
     ctx.replayed = len(insts)
     ctx.sample({"mask": {"h": insts[len(insts) // 2][0], "w": insts[len(insts) // 2][1], "unmasked": insts[len(insts) // 2][2]},
                 "record": {k: v for k, v in recs[len(recs) // 2].items()}})
@@ -255,6 +281,10 @@ def run(ctx):
 
 def replay(ctx, rp):
     rec = rp["record"]
+    if rec.get("api") == "indexes_big":
+        rej = mc.validate(ctx, big_index_records([(rec["h"], rec["w"], rec["u"])]), "C01-replay")
+        print("replayed 1 record; rejected:", [(r["clauses"]) for r in rej])
+        return ctx.finish()
     recs = [r for r in records_for((rec["h"], rec["w"], rec["u"]), ctx.seed)
             if r["api"] == rec["api"] and all(r.get(k) == rec.get(k) for k in ("kind", "given", "store_native"))]
     rej = mc.validate(ctx, recs, "C01-replay")
